@@ -177,6 +177,19 @@ func init() {
 		},
 	}
 
+	registry["C15"] = &Check{
+		Rule: "two real systems on loopback TCP (restarted every 25 cases and on every change of the Codec setting), with or without a user Codec on both; roles: operator X (an actor) and S (the system's root context) on system A, target T, forwarders F1 and F2 and a second watcher W on A or B by the generator (W, when on B, has the same path as X); a script of 1-7 operations from {Tell, Ask answered by an echo / a registered error / not at all, Ping, Watch and Unwatch by X or W (each followed by a Ping on the same ordered channel), ActorContext.PipeTo and Future.PipeTo with 1-2 forwarders out of F1, F2, X (request answered by an echo, a registered error, a plain Go error when T is on the asker's system, or not at all), Scheduler.Once}, payloads of 0-5000 bytes as a registered custom message or as a message only the Codec knows, optionally ending with Kill (poison or not, by X or S, reasons incl. commas and non-ASCII). The script runs twice on the same pair of systems: with every role on A, then with the drawn placement. Oracle (differential, the property's own statement): the ordered observations of every role (received payloads with content hash and sender role, ask results, pongs, OnKill with killer / poison / reason, OnKilled with the terminated role, PipeResult with payload and error class), references reduced to role names, are equal in both runs; no RemotingMessageDecodeFailedEvent. An expectation table (observations per operation) is used only to know when a step has settled; if the all-local run deviates from it the case is inconclusive (harness), never a verdict. Non-trivial = at least one role on the other system. Distinct = hash of the case.",
+		Assumptions: []string{
+			"a plain Go error is not a wire message: it is generated only as the result of a piped request whose target is local to the asker; error identity is compared by class (nil / *vivid.Error code and message / ErrorException for everything else), which is what the wire carries",
+			"real-time waits are patience: an answered request gets 10 s, a step 12 s to produce its observations; absence of an observation is judged 150 ms after the last step",
+			"observations are compared per role, not across roles (no global order between actors)",
+		},
+		Serial: true,
+		Units: []Unit{
+			{Name: "transparency", Pkg: "c15", Run: "^TestC15Transparency$", Env: map[string]string{"VERIF_FAILFAST": "1"}, QuickChecks: 60, ThoroughChecks: 1500, ThoroughShards: 4, CaseFile: true, CrashOracle: "no-crash", QuickTimeout: 20 * time.Minute, ThoroughTimeout: 120 * time.Minute},
+		},
+	}
+
 	clusterOverlay := []Inject{{RepoRel: "internal/cluster/zz_verif_export.go", Src: "overlay/cluster_export.go.txt"}}
 	registry["C18"] = &Check{
 		Rule: "2-7 real cluster.NodeActor values in a deterministic discrete-event simulation on a virtual clock (package csim: one queue per node, handlers run to completion except inside Ask, per-link FIFO, every message through the library's remoting envelope codec, global math/rand seeded per case): seed layouts (one seed; two seeds listed by all = two self-seeded islands that must merge; mixed: every other node lists a drawn subset), start offsets 0-8 s in any order (a node may start before its seed: first join attempt fails), per-message latencies 0-400 ms and losses from drawn tapes, a fault phase of 0-30 s (+ up to two detection timeouts) with 1-6 faults from {partition into two drawn sides, heal, reset of all connections (in-flight messages dropped), loss on/off, restart of a non-seed node, crash, graceful leave}; then every partition heals, losses stop and a quiet phase is observed. Regime S: failure-detection timeout longer than the scenario (no timeout can fire), quiet phase 180 s, strict oracle at its end: identical views (id, address, generation, incarnation stamp, status), membership == running nodes, every node computes the smallest running address as leader, exactly one node's last ClusterLeaderChangedEvent says IAmLeader and it is that node, no membership / leader event in the last third. Regime L: timeout 40 s (default), 10 s or 5 s, quiet phase 8 x (timeout + detection period), judged over its second half by sampling every timeout/8: a running node absent from a running node's view in every sample, a dead node listed in every sample and never announced as removed, two nodes computing different leaders in every sample = violations; the transient forms (absent / listed / different in some samples; membership and leader announcements that never stop) are the listed known findings. Both regimes: wherever a restarted node is listed in the window, the entry is its running incarnation's (stamp, address, generation); every node lists itself. Non-trivial = at least two kinds of fault happened, or a join attempt failed, or >= 3 nodes. Distinct = hash of the case.",
